@@ -163,6 +163,19 @@ func toResp(rep si.Reply, keep, chunk int) target.Resp {
 		// the target flushes what was written and closes the connection when Hijack returns
 		return target.Resp{Hijack: func(c net.Conn, rw io.ReadWriter) { _, _ = io.WriteString(rw, raw) }}
 	}
+	if rep.Announced > 0 {
+		// the answer to HEAD: status line and headers only. With Content-Length it states the size of the body a GET would
+		// be answered with (what net/http's and most other servers do when the handler sets the header); where the same
+		// answer to GET would be streamed without Content-Length the answer to HEAD has none either.
+		hdr := map[string]string{}
+		for k, v := range rep.Header {
+			hdr[k] = v
+		}
+		if chunk == 0 {
+			hdr["Content-Length"] = strconv.Itoa(rep.Announced)
+		}
+		return target.Resp{Status: rep.Status, Header: hdr}
+	}
 	if chunk > 0 && len(rep.Body) > 0 {
 		at := (chunk - 1) % (len(rep.Body) + 1)
 		var chunks [][]byte
@@ -202,7 +215,10 @@ func reqName(uri string) string {
 
 // runProgram writes the description and its source files to the shared fs and runs
 // shots invocations through the real http/scenario provider, gun and engine.
-func runProgram(prog *si.Program, shots, instances int, keepAlive bool, script func(seq int, r *target.Rec) target.Resp) (*runResult, error) {
+//
+// answlog: the gun's answer log is switched on (filter all, written to /dev/null): the gun then reads and keeps the body
+// of every answer, also of steps without postprocessors.
+func runProgram(prog *si.Program, shots, instances int, keepAlive, answlog bool, script func(seq int, r *target.Rec) target.Resp) (*runResult, error) {
 	tg, mu := target.Shared(false)
 	mu.Lock()
 	defer mu.Unlock()
@@ -239,6 +255,9 @@ func runProgram(prog *si.Program, shots, instances int, keepAlive bool, script f
 		"result":  map[string]any{"type": "discard"},
 		"rps":     map[string]any{"type": "once", "times": shots + 5},
 		"startup": map[string]any{"type": "once", "times": instances},
+	}
+	if answlog {
+		pool["gun"].(map[string]any)["answlog"] = map[string]any{"enabled": true, "path": "/dev/null", "filter": "all"}
 	}
 	var conf engine.Config
 	if err := pand.Decode(map[string]any{"pools": []any{pool}}, &conf); err != nil {
